@@ -83,6 +83,7 @@ fn main() {
     }
 
     qwt_verif::outcome::install_hook();
+    qwt_verif::set_tiny(cfg.scale == Scale::Tiny);
     let cases = props::cases(&cfg);
     let assign = shard_of(&cases, cfg.nshards.max(1));
     let mut rep = Rep::new(cfg.clone());
